@@ -216,11 +216,13 @@ def releaseOps (s : S) : List AllocFail.Op :=
   (asc s.rd).map .readCancel ++ (asc s.wr).map .writeCancel ++
   (asc s.nbr).flatMap (fun x => [.nbrCancel x, .nbrFree x]) ++ (asc s.nbw).map .nbwFree
 
-/-- everything `release_all` of the harness does: schedule off, the release calls, the exit handlers; the next
-case starts from an empty world with the same allocator -/
+/-- the world after `release_all` of the harness: schedule off, the release calls, the exit handlers -/
+def endWorld (s : S) : World :=
+  atexitAll (AllocFail.run { s.w with m := { s.w.m with f := sched 0 0 0 } } (releaseOps s))
+
+/-- everything `release_all` of the harness does; the next case starts from an empty world with the same allocator -/
 def releaseAll (s : S) : S :=
-  let w0 : World := { s.w with m := { s.w.m with f := sched 0 0 0 } }
-  let w8 := atexitAll (AllocFail.run w0 (releaseOps s))
+  let w8 := endWorld s
   { w := { m := { w8.m with f := sched 0 0 0 }, live := w8.live, cache := w8.cache, bad := w8.bad } }
 
 /-- after a call that returned the object `o` (a start / init) or succeeded (`ok`) -/
